@@ -348,6 +348,25 @@ def oracle(case, ctx):
                         gl = [[int(v) for v in back.iloc[q, 0].index] for q in range(n)]
                         if gl != [lab[i] for i in iorder]:
                             discs.append(D("time_labels_differ:Ns->L->Ns", "cell time labels %s expected %s" % (gl[:2], [lab[i] for i in iorder][:2])))
+    # the level names asked for are the level names of the result, also when only one of the
+    # two is given (the next conversion needs just the instance level's name)
+    if not discs:
+        for ixn, txn in ((IX, None), (None, TX), (IX, TX)):
+            kw = {k: v for k, v in (("instance_index", ixn), ("time_index", txn)) if v is not None}
+            for what, fn in (("A3->MI", lambda: dp.from_3d_numpy_to_multi_index(A.copy(), column_names=list(names), **kw)),
+                             ("Ns->MI", lambda: dp.from_nested_to_multi_index(starts["Ns"].copy(), **kw))):
+                mi = sut(fn)
+                if isinstance(mi, Raised):
+                    discs.append(D("conversion_raised:%s:%s" % (what, mi.type), "level names %s: %s" % (kw, mi.msg)))
+                    continue
+                got_names = list(mi.index.names)
+                if (ixn is not None and got_names[0] != ixn) or (txn is not None and got_names[1] != txn):
+                    discs.append(D("level_names_differ:%s" % what, "asked for %s, index levels are named %s" % (kw, got_names)))
+                elif ixn is not None:
+                    back = sut(dp.from_multi_index_to_nested, mi, instance_index=ixn)
+                    d = sut(dec_nested, back) if not isinstance(back, Raised) else back
+                    if isinstance(d, Raised) or not np.array_equal(d[0], A):
+                        discs.append(D("values_differ:%s->Ns" % what, "level names %s: %s" % (kw, repr(d)[:200])))
     # check_X coercions agree with the conversions
     r = sut(check_X, starts["Ns"], coerce_to_numpy=True)
     if isinstance(r, Raised) or not (isinstance(r, np.ndarray) and np.array_equal(r, A)):
